@@ -90,11 +90,11 @@ mut("e10-fold-index-first", ["C10", "C11"], "collection.go",
 mut("e10-search-no-empty-skip", ["C10"], "collection.go",
     "\t\tfor _, child := range g.children {\n\t\t\tif child.Empty() {\n\t\t\t\tcontinue\n\t\t\t}\n\t\t\tif child.Rect().IntersectsRect(rect) {",
     "\t\tfor _, child := range g.children {\n\t\t\tif child.Rect().IntersectsRect(rect) {",
-    "E10.search", note="linear Search reports empty children, indexed Search does not", sentinel=True)
+    "E", note="linear Search reports empty children, indexed Search does not", sentinel=True)
 mut("e10-tree-inserts-empties", ["C10"], "collection.go",
     "\t\tfor _, child := range g.children {\n\t\t\tif child.Empty() {\n\t\t\t\tcontinue\n\t\t\t}\n\t\t\trect := child.Rect()",
     "\t\tfor _, child := range g.children {\n\t\t\trect := child.Rect()",
-    "E10.index", note="child index also holds empty children")
+    "E", note="child index also holds empty children")
 mut("e10-numpoints-skips", ["C10"], "collection.go",
     "\tfor _, child := range g.children {\n\t\tn += child.NumPoints()\n\t}",
     "\tfor _, child := range g.children {\n\t\tif child.Empty() {\n\t\t\tcontinue\n\t\t}\n\t\tn += child.NumPoints()\n\t}",
